@@ -542,3 +542,51 @@ Example C15_tr_loops_run :
      exec_oracle ext fr B (fun _ s => (s, 0%Z)) body bs os /\ exec_keeps_depth (fun _ s => (s, 0%Z)) body).
 Proof. exact loops_run. Qed.
 End C15_translated_loops.
+
+(* ------------------------------------------------------------------------------------------ *)
+(* ec_glob AS A WHOLE (callx on F_ec_glob), relative to the run of its first part glob_prefix = guard; default range; ex_region/ex_zero; not; pattern
+   (whose calls -- strcpy, ex_region, ex_zero, strchr, re_read, ex_kwdset, free, ex_kwd, rstr_make -- are NOT walked by a theorem, except the guard and
+   `not` below): the frame of ec_glob is five fresh blocks behind the caller's memory (glob_entry_st); an early exit of the first part is the result of
+   the function; when the first part runs through into a memory representing the model state s, the function returns 0 in a memory that represents the
+   model's tail of ec_glob from s (marking, visits, sweep; nesting depth given back). *)
+Section C15_translated_ec_glob.
+Import CLite CLiteProps GenCFuncs CLiteExt TrLbufBase TrLbufGlob TrGlob.
+
+Theorem C15_tr_ec_glob_early_exit : forall ext fuel d vloc vcmd ba oa vtxt (m : mem) v st1,
+  exec (cx ext fuel d) fuel glob_prefix (glob_entry_st m vloc vcmd (VPtr ba oa) vtxt) = OReturn v st1 ->
+  callx ext cprog fuel (S (S d)) F_ec_glob [vloc; vcmd; VPtr ba oa; vtxt] m = Ok (v, memm st1).
+Proof. exact tr_ec_glob_early. Qed.
+Print Assumptions C15_tr_ec_glob_early_exit.
+
+Theorem C15_tr_ec_glob : forall ext fuel d vloc vcmd ba oa vtxt (m : mem) bre nt m1 fr dep B rfind mexec pat body bs os s b e fuelM,
+  let b5 := length m in let b6 := (length m + 1)%nat in let b7 := (length m + 2)%nat in let b9 := (length m + 3)%nat in let b10 := (length m + 4)%nat in
+  exec (cx ext fuel d) fuel glob_prefix (glob_entry_st m vloc vcmd (VPtr ba oa) vtxt)
+  = ONormal (CLite.mkst [vloc; vcmd; VPtr ba oa; vtxt; VPtr bre 0; VPtr b5 0; VPtr b6 0; VPtr b7 0; VInt (b2z nt); VPtr b9 0; VPtr b10 0; VUndef; VUndef] m1) ->
+  (dep <= 7)%N -> ~ In G_xrow fr -> ~ In G_xgdep fr -> In b10 fr -> In b6 fr -> In b7 fr ->
+  find_oracle ext bre b5 fr B rfind pat -> exec_oracle ext fr B mexec body bs os -> exec_keeps_depth mexec body -> free_oracle ext bre fr B ->
+  st_rep fr B m1 s -> dep = N.of_nat (S (ExDefs.xgdep s)) ->
+  cell_at m1 b6 b -> cell_at m1 b7 e -> (0 <= b < 2147483647)%Z -> (e <= Z.of_nat (length (LB (ExDefs.lb s))))%Z -> i32 e ->
+  nth_error m1 b10 = Some [VPtr bs os] -> (fuelM + B < fuel)%nat ->
+  let s3 := ExDefs.set_gdep s (S (ExDefs.xgdep s)) in
+  let s4 := ExDefs.set_lb s3 (ExDefs.globset_range (Z.to_nat (e - b - 1)) (Z.to_nat (b + 1)) dep (ExDefs.lb s3)) in
+  snd (glob_loop_x rfind mexec fuelM (Z.to_nat b) pat body nt dep s4 []) <> 2%N ->
+  let s5 := ExDefs.glob_loop rfind mexec fuelM (Z.to_nat b) pat body nt dep s4 in
+  let s6 := ExDefs.set_lb s5 (ExDefs.globclear (length (ExDefs.lns (ExDefs.lb s5))) 0 dep (ExDefs.lb s5)) in
+  exists m', callx ext cprog fuel (S (S d)) F_ec_glob [vloc; vcmd; VPtr ba oa; vtxt] m = Ok (VInt 0, m') /\
+             st_rep fr B m' (ExDefs.set_gdep s6 (ExDefs.xgdep s)).
+Proof. exact tr_ec_glob_run. Qed.
+Print Assumptions C15_tr_ec_glob.
+
+(* two statements of the first part, run: the guard lets a global at nesting depth < 7 pass unchanged, and
+   not = strchr(cmd, '!') || cmd[0] == 'v' is the model's `mem 33 cmd || (hd0 cmd =? 118)` for every command name *)
+Theorem C15_tr_guard_passes_below_7 : forall call f lc (m : mem) g, cell_at m G_xgdep g -> (g < 7)%Z -> i32 g ->
+  exec call f glob_guard (CLite.mkst lc m) = ONormal (CLite.mkst lc m).
+Proof. exact glob_guard_pass. Qed.
+Print Assumptions C15_tr_guard_passes_below_7.
+
+Theorem C15_tr_not_from_command_name : forall call f (m : mem) bcmd cmd v0 v2 v3 v4 v5 v6 v7 v8 v9 v10 v11 v12, str_at m bcmd cmd -> nonul cmd ->
+  exec call f glob_not (CLite.mkst [v0; VPtr bcmd 0; v2; v3; v4; v5; v6; v7; v8; v9; v10; v11; v12] m)
+  = ONormal (CLite.mkst [v0; VPtr bcmd 0; v2; v3; v4; v5; v6; v7; VInt (b2z (ExDefs.mem 33 cmd || (hd0 cmd =? 118)%N)); v9; v10; v11; v12] m).
+Proof. exact glob_not_ok. Qed.
+Print Assumptions C15_tr_not_from_command_name.
+End C15_translated_ec_glob.
